@@ -439,10 +439,15 @@ class cleanup_functools_wrapper(object):
         else:
             raise NotImplementedError('This context manager is not reentrant')
         self.saved_attrs = {}
+        found = {}
+        for attr in self.attrs:
+            try:
+                found[attr] = getattr(self.func, attr)
+            except AttributeError:
+                pass
         try:
-            for attr in self.attrs:
+            for attr, value in found.items():
                 try:
-                    value = getattr(self.func, attr)
                     delattr(self.func, attr)
                 except (AttributeError, TypeError):
                     pass
